@@ -652,6 +652,68 @@ func dialerFails(c *core.Ctx, r *core.Rand, i int) {
 	leak(c, base, kind, label)
 }
 
+// giveUp: the connection breaks and the server cannot be reached any more (every redial fails). The failing calls
+// return errors; the application then gives up and closes the client - or the whole thing happens inside Dial, during
+// the version negotiation. Nothing panics, Dial returns an error, Close works, calls after Close fail, nothing remains.
+func giveUp(c *core.Ctx, r *core.Rand, i int) {
+	kind := kinds[i%nClientKinds]
+	inDial := (i/nClientKinds)%2 == 1
+	at := 4 + r.Intn(10)
+	if inDial {
+		at = r.Intn(6) // inside the negotiation exchange
+	}
+	label := fmt.Sprintf("gu%d-%s@%d-inDial=%v", i, kind, at, inDial)
+	base := len(census.Goroutines())
+	w := newWorld(c, kind, at)
+	first := true
+	dialer := func(ctx context.Context) (net.Conn, error) {
+		conn, err := w.dialer(ctx)
+		if first {
+			first = false
+			w.dialFails.Store(1 << 30) // after the first connection the server is unreachable for good
+		}
+		return conn, err
+	}
+	var cl *kmipclient.Client
+	var err error
+	if p, pv, st := core.Guard(func() { cl, err = kmipclient.Dial("mem", kmipclient.WithDialerUnsafe(dialer)) }); p {
+		c.Violation(core.PanicSig(pv, st), fmt.Sprintf("Dial panicked when the negotiation lost its connection and the server could not be reached again (%s): %v", label, pv), map[string]any{"stack": st})
+		w.srv.Close()
+		return
+	}
+	c.Count("give_up_scenarios", 1)
+	c.Distinct(core.Hash64("give-up", kind, fmt.Sprint(at, inDial)))
+	if err != nil {
+		c.Count("give_up_scenarios.dial-failed", 1)
+		w.srv.Close()
+		leak(c, base, kind, label)
+		return
+	}
+	failed := 0
+	for k := 1; k <= 4; k++ {
+		if o := w.call(cl, fmt.Sprintf("%s-call%d", label, k)); o.err != nil {
+			failed++
+		} else if o.got != o.id {
+			c.Violation("C11:wrong-response:"+kind, fmt.Sprintf("call %s returned %q (%s)", o.id, o.got, label), nil)
+		}
+	}
+	if failed > 0 {
+		c.Count("give_up_scenarios.closed-after-failed-redials", 1)
+	}
+	if p, pv, st := core.Guard(func() { cl.Close() }); p {
+		c.Violation(core.PanicSig(pv, st), fmt.Sprintf("Close panicked after %d calls failed because the server could not be reached again (%s): %v", failed, label, pv), map[string]any{"stack": st})
+		w.srv.Close()
+		return
+	}
+	w.dialFails.Store(0)
+	if o := w.call(cl, label+"-after-close"); o.err == nil {
+		c.Violation("C11:call-after-close-succeeds:"+kind, fmt.Sprintf("a call on a closed client succeeds (%s)", label), nil)
+	}
+	core.Guard(func() { cl.Close() })
+	w.srv.Close()
+	leak(c, base, kind, label)
+}
+
 // concurrent callers with a fault somewhere
 func concurrent(c *core.Ctx, r *core.Rand, i int) {
 	kind := kinds[i%len(kinds)]
@@ -1162,12 +1224,18 @@ func Spec() *core.Spec {
 			"Monitors: panic/crash, own-id response or error, never two consecutive failed calls, <= 4 transmissions per request, calls fail after Close, goroutine census after Close. a response whose frame-completing Read is handed over only when the connection is closed (call abandoned by cancel, deadline or Close); Close() under a pending call on a transport whose Close is slow; a reconnection dial that stalls until the caller's deadline; a write stalling past the caller's deadline; Dial losing its first connection and failing the negotiation on the second; two fault kinds that leave the peer healthy (io.ErrShortWrite; error after complete delivery); distinct = distinct (scenario kind, fault kind, operation index)",
 		Assumptions: []string{"recovery rule used: while the server is reachable and new connections are fault-free, two consecutive calls never both fail (a call pending at, or first after, the fault may fail)",
 			"goroutines gone = none with a library frame within 10 s of closing the client and the server (bounded progress)"},
-		Required: []string{"calls", "context_look_faults_fired.mode0", "context_look_faults_fired.mode1", "context_look_faults_fired.mode2", "reply_with_eof_scenarios.mode0", "reply_with_eof_scenarios.mode1", "reply_with_eof_scenarios.mode2", "late_responses_held", "stalled_writes", "closes_under_a_call", "stalled_redials", "negotiation_reconnects.second-connection-used", "double_faults_both_fired", "faults_fired.read-eof", "faults_fired.read-reset", "faults_fired.write-epipe", "faults_fired.short-write", "faults_fired.short-write-peer-stays", "faults_fired.write-error-after-delivery", "faults_fired.server-closes-after-reply", "faults_fired.server-closes-after-read",
+		Required: []string{"calls", "give_up_scenarios.closed-after-failed-redials", "context_look_faults_fired.mode0", "context_look_faults_fired.mode1", "context_look_faults_fired.mode2", "reply_with_eof_scenarios.mode0", "reply_with_eof_scenarios.mode1", "reply_with_eof_scenarios.mode2", "late_responses_held", "stalled_writes", "closes_under_a_call", "stalled_redials", "negotiation_reconnects.second-connection-used", "double_faults_both_fired", "faults_fired.read-eof", "faults_fired.read-reset", "faults_fired.write-epipe", "faults_fired.short-write", "faults_fired.short-write-peer-stays", "faults_fired.write-error-after-delivery", "faults_fired.server-closes-after-reply", "faults_fired.server-closes-after-read",
 			"census_checks", "calls_after_close", "repeated_drops.k4", "repeated_drops.k5", "dialer_failure_scenarios", "concurrent_scenarios", "directed.terminate-before-send-select", "directed.close-in-flight"},
 		Shards: func(string) int { return 8 },
 		Families: []core.Family{
 			{Name: "matrix", Exhaustive: true, N: func(string) int { return maxOps * len(kinds) }, Run: matrix, Timeout: 40 * time.Second},
 			{Name: "repeated-drops", Exhaustive: true, N: func(string) int { return 16 }, Run: repeatedDrops, Timeout: 40 * time.Second},
+			{Name: "give-up", N: func(tier string) int {
+				if tier == core.Thorough {
+					return 3200
+				}
+				return 64
+			}, Run: giveUp, Timeout: 60 * time.Second},
 			{Name: "context-looks", Exhaustive: true, N: func(string) int { return 14 * 3 * 2 }, Run: contextLooks, Timeout: 60 * time.Second},
 			{Name: "cluster-pool", N: func(tier string) int {
 				if tier == core.Thorough {
